@@ -3,9 +3,12 @@
    numbers stay Coq's inductive positive / N / Z. No Extract Constant. *)
 From Coq Require Extraction.
 From Coq Require Import ExtrOcamlBasic.
-From CFDP Require Import Base.Prelude Model.Segments.
+From CFDP Require Import Base.Prelude Model.Segments Model.Crc Model.Timer Model.TxTypes Model.Recv Model.Send.
 
 Extraction Language OCaml.
 Extraction "model.ml"
   Segments.merge_seg Segments.gaps Segments.is_complete Segments.seg_len
-  Segments.seg_end Segments.end_or_0.
+  Segments.seg_end Segments.end_or_0
+  Crc.crc16
+  Recv.r_new Recv.rstep Recv.has_pdu_to_send Recv.until_timeout
+  Send.s_new Send.sstep Send.s_has_pdu_to_send Send.s_until_timeout.
